@@ -29,6 +29,15 @@ Theorem C14_no_residue :
 Proof. exact context_cleared. Qed.
 Print Assumptions C14_no_residue.
 
+(* the WHOLE output list of any history from any starting context: every encode in it returns what a fresh process
+   returns for that document, every construction returns nothing - independent of position, of what ran before, and of
+   which earlier encodes failed *)
+Theorem C14_every_output :
+  forall (D O : Type) (pal : D -> list str) (enc : option (list str) -> D -> res O) s h,
+    snd (run D O pal enc s h) = map (fresh_out pal enc) h.
+Proof. exact run_outputs_fresh. Qed.
+Print Assumptions C14_every_output.
+
 (* the shell before the repairs (context set on one path only, not cleared on failure) does NOT have the property *)
 Theorem C14_old_shell_refuted :
   snd (run_old nat _ demo_pal demo_enc demo_uses None [Encode 0; Encode 1])
